@@ -224,7 +224,9 @@ def _t1_cases(shape: tuple, tier: str) -> list[tuple]:
             if root == "dict" and tier == "quick" and scheme not in (
                     "il", "mixed0", "stack", "call", "ilshape"):
                 continue
-            out.append((scheme, root, "mix" if scheme.startswith("mixed") else "ph"))
+            out.append((scheme, root, "mix" if scheme.startswith("mixed") else
+                        "sp" if scheme in ("ilshape", "phshape", "recvshape", "dwshape")
+                        else "ph"))
     return out
 
 
@@ -247,6 +249,12 @@ def _work_t1(args: tuple) -> dict:
                 for kd in g0.ek[i]:
                     stats["ekinds"][kd] = stats["ekinds"].get(kd, 0) + 1
             case = f"t1/s{si}/{scheme}/{rootk}"
+            if rootk == "array":
+                fs, npairs = _equality_findings(
+                    H, lambda: H.build_t1([list(c) for c in ch], list(rep), scheme,
+                                          seed=seed(), leaf=leaf, root=rootk)[0], case)
+                findings += fs
+                stats["eq_pairs"] = stats.get("eq_pairs", 0) + npairs
             for pname, prof in profiles.items():
                 if prof.skip or prof.semantic:
                     continue
@@ -264,6 +272,153 @@ def _work_t1(args: tuple) -> dict:
                              scheme=scheme, root=rootk, leaf=leaf, templ=templ)
                 findings += fs
                 records += r["records"]
+    return {"records": records, "findings": findings, "stats": stats}
+
+
+def _equality_findings(H: Any, build: Any, case: str) -> tuple[list[dict], int]:
+    """EqualityComparer: two separately built copies of one graph are ==, and
+    its per-pair method runs once per pair of nodes (it is memoised on
+    (id, id)); hash() is cached per object."""
+    a, b = build(), build()
+    with H.Recorder() as rec:
+        try:
+            eq = bool(a == b)
+            ha, hb = hash(a), hash(b)
+        except Exception as ex:      # noqa: BLE001
+            return [{"clause": "unexpected_exception", "exc": type(ex).__name__,
+                     "mapper": "pytato.equality.EqualityComparer", "case": case,
+                     "what": f"== raised {type(ex).__name__}: {ex}"[:200]}], 0
+    fs = []
+    pairs: dict[tuple, int] = {}
+    for ev in rec.raw:
+        if ev[0] == "map+" and type(ev[1]).__name__ == "EqualityComparer":
+            pass
+    for t in H.derive_traces(rec.raw).values():
+        if type(t.mapper).__name__ != "EqualityComparer":
+            continue
+        for e in t.events:
+            if e["ev"] == "enter":
+                k = (id(t.mapper), id(e["obj"]), tuple(id(x) for x in e["extra"]))
+                pairs[k] = pairs.get(k, 0) + 1
+    if any(c > 1 for c in pairs.values()):
+        fs.append({"clause": "OncePerKey:pair_compared_twice", "case": case,
+                   "mapper": "pytato.equality.EqualityComparer",
+                   "what": f"a pair of nodes was compared {max(pairs.values())} times "
+                           f"by one EqualityComparer"})
+    has_dw = any(type(o).__name__ == "DataWrapper" for o in H.reflect(a).objs)
+    if (not eq or ha != hb) and not has_dw:      # data wrappers are equal only to themselves
+        fs.append({"clause": "machinery:equal_copies_not_equal", "case": case,
+                   "mapper": "pytato.equality.EqualityComparer",
+                   "what": f"two identically built graphs: ==:{eq} hash equal:{ha == hb}"})
+    return fs, len(pairs)
+
+
+def _work_ladder(args: tuple) -> dict:
+    (lname, ch, rep), scheme, depth = args
+    H = _W["H"]
+    profiles = _W["profiles"]
+    records, findings = [], []
+    stats = {"ladder_runs": 0, "ladder_nodes": 0, "eq_pairs": 0}
+    root, nodes, templ = H.build_t1(ch, rep, scheme, seed=seed(), allowed=H.LADDER_SCHEMES)
+    interner = H.Interner()
+    g0 = H.reflect(root, interner)
+    stats["ladder_nodes"] = g0.n
+    case = f"ladder{depth}/{lname}/{scheme}"
+    import signal
+
+    def _alarm(*a: Any) -> None:
+        raise TimeoutError("ladder case exceeded its time budget")
+    signal.signal(signal.SIGALRM, _alarm)
+    for pname, prof in profiles.items():
+        if prof.skip or prof.semantic:
+            continue
+        if pname in ("pytato.transform.WalkMapper", "pytato.stringifier.Reprifier"):
+            continue      # uncached: exponential by documented design / output doubles per level
+        t0 = time.time()
+        signal.alarm(120)
+        try:
+            r = H.run_direct(pname, prof, root, interner, case)
+        except TimeoutError:
+            findings.append({"clause": "OncePerKey:exponential_time", "case": case,
+                             "mapper": pname, "what": "more than 120 s on a ladder"})
+            continue
+        finally:
+            signal.alarm(0)
+        stats["ladder_runs"] += 1
+        for f in r["findings"]:
+            f.update(case=case, mapper=pname)
+        findings += r["findings"]
+        records += r["records"]
+        if time.time() - t0 > 60:
+            findings.append({"clause": "OncePerKey:exponential_time", "case": case,
+                             "mapper": pname, "what": f"{time.time() - t0:.0f}s on a ladder"})
+    fs, npairs = _equality_findings(
+        H, lambda: H.build_t1(ch, rep, scheme, seed=seed(), allowed=H.LADDER_SCHEMES)[0], case)
+    findings += fs
+    stats["eq_pairs"] = npairs
+    # repr() with the default truncation must stay cheap however many paths there are
+    t0 = time.time()
+    _ = repr(root)
+    if time.time() - t0 > 30:
+        findings.append({"clause": "OncePerKey:exponential_time", "case": case,
+                         "mapper": "pytato.stringifier.Reprifier",
+                         "what": f"repr took {time.time() - t0:.0f}s on a ladder"})
+    return {"records": records, "findings": findings, "stats": stats}
+
+
+def _work_t2(args: tuple) -> dict:
+    shapes, tier = args
+    H = _W["H"]
+    profiles = _W["profiles"]
+    classes = _W.setdefault("classes", H.discover_mappers())
+    entries = _W.setdefault("entries", H.entry_points())
+    records, findings = [], []
+    stats: dict[str, Any] = {"entry_runs": 0, "entry_classes": {}, "entry_exceptions": {}}
+    for si, (ch, rep) in shapes:
+        for variant in H.T2_VARIANTS:
+            for symbolic in (False, True):
+                if symbolic and variant != "ew":
+                    continue
+                root = H.build_t2([list(c) for c in ch], list(rep), variant, seed=seed(),
+                                  symbolic=symbolic)
+                case = f"t2/s{si}/{variant}/{'sym' if symbolic else 'int'}"
+                for ename, fn in entries.items():
+                    if ename in ("generate_loopy", "generate_numpy_like",
+                                 "codegen.preprocess") and (si % 4 != 0 and tier == "quick"):
+                        continue
+                    r = H.run_entry(ename, fn, root, H.Interner(), case, profiles, classes)
+                    stats["entry_runs"] += 1
+                    for k, c in r["classes"].items():
+                        stats["entry_classes"][k] = stats["entry_classes"].get(k, 0) + c
+                    if r["exc"]:
+                        kx = f"{ename}: {r['exc'][:80]}"
+                        stats["entry_exceptions"][kx] = stats["entry_exceptions"].get(kx, 0) + 1
+                        # a generic traversal (the property's anchor modules) that has
+                        # no method for a standard node kind, or that reports a
+                        # collision / created duplicate on a duplicate-free graph
+                        anchors = ("DependencyMapper", "InputGatherer", "SizeParamGatherer",
+                                   "TagCountMapper", "CopyMapper", "Deduplicator",
+                                   "UsersCollector", "ListOfUsersCollector", "TopoSortMapper",
+                                   "NodeCountMapper", "NodeMultiplicityMapper",
+                                   "CallSiteCountMapper", "MaterializedNodeCollector",
+                                   "ListOfDirectPredecessorsGetter", "CachedMapAndCopyMapper",
+                                   "DataWrapperDeduplicator", "WalkMapper", "Reprifier")
+                        m = next((a for a in anchors if f"{a} cannot handle" in r["exc"]
+                                  or f"in <class 'pytato.transform.{a}'>" in r["exc"]
+                                  or f"in <class 'pytato.analysis.{a}'>" in r["exc"]), None)
+                        if m is not None and "cache collision" in r["exc"] and \
+                                H.reflect(root).has_dups():
+                            m = None      # duplicates present: reporting them is correct
+                        if m is not None:
+                            findings.append({
+                                "clause": "unexpected_exception", "mapper": m, "case": case,
+                                "exc": r["exc"].split(":")[0], "entry": ename,
+                                "nodekind": r["exc"].rsplit(".", 1)[-1].strip("'>. "),
+                                "what": f"{ename} raised {r['exc']}"})
+                    for f in r["findings"]:
+                        f.update(case=case)
+                    findings += r["findings"]
+                    records += r["records"]
     return {"records": records, "findings": findings, "stats": stats}
 
 
@@ -313,7 +468,7 @@ def main(tier: str, only: dict | None = None) -> int:
     run = Run(PROP, tier, "model_checking")
     from ptverif import mapperharness as H
     t0 = time.time()
-    mc = run_mc(tier) if only is None else []
+    mc = run_mc(tier) if only is None and not os.environ.get("C13_DEBUG_NOMC") else []
     t_mc = time.time() - t0
     maxn, maxar = (4, 2) if tier == "quick" else (5, 2)
     shapes, gen = generate(maxn, maxar)
@@ -327,9 +482,23 @@ def main(tier: str, only: dict | None = None) -> int:
     if only is not None:
         shapes = [s for s in shapes if [list(map(list, s[0])), list(s[1])] == only["shape"]]
     indexed = list(enumerate(shapes))
+    stride = int(os.environ.get("C13_DEBUG_STRIDE", "1"))     # development aid only
+    if stride > 1:
+        indexed = indexed[::stride]
     chunks = [indexed[i::NCPU * 2] for i in range(NCPU * 2) if indexed[i::NCPU * 2]]
+    depth = 60
+    ladders = [(l, sc, depth) for l in H.ladder_shapes(depth)
+               for sc in (H.LADDER_SCHEMES + ["mixed0", "mixed1"] if tier == "thorough"
+                          else ["il", "csr", "send", "call", "dict", "mixed0"])]
+    t2shapes = indexed if tier == "thorough" else indexed[::3]
+    t2chunks = [t2shapes[i::NCPU * 2] for i in range(NCPU * 2) if t2shapes[i::NCPU * 2]]
     with mp.Pool(NCPU, initializer=_winit, initargs=(gen["expect"],)) as pool:
-        parts = pool.map(_work_t1, [(c, tier) for c in chunks])
+        if only is None:
+            a_lad = pool.map_async(_work_ladder, ladders, chunksize=1)
+            a_t2 = pool.map_async(_work_t2, [(c, tier) for c in t2chunks], chunksize=1)
+        parts = pool.map_async(_work_t1, [(c, tier) for c in chunks]).get(1700)
+        if only is None:
+            parts += a_lad.get(1700) + a_t2.get(1700)
     records, findings, stats = [], [], {}
     for p in parts:
         records += p["records"]
@@ -346,9 +515,11 @@ def main(tier: str, only: dict | None = None) -> int:
             continue
         rejected.add(r["id"].rsplit("|", 1)[0])
         case, pname, _ = r["id"].split("|")
+        pname = pname.split("@")[0] if "@" in pname else pname
         det = val.detail.get(alias[r["id"]], "")
         nums = [int(x) for x in det.replace("<<", "").replace(">>", "").split(",") if x.strip()]
         f = {"clause": vd, "case": case, "mapper": pname, "detail": det,
+             "entry": r["id"].split("|")[1].partition("@")[2],
              "what": f"trace rejected by PtMapperTrace: {vd}", "record": r["id"]}
         if len(nums) >= 2 and 1 <= nums[1] <= r["n"]:
             f["nodekind"] = r["kind"][nums[1] - 1]
@@ -405,4 +576,86 @@ def replay(rep: dict) -> int:
 
 
 def selftest(tier: str) -> int:
-    return 2
+    """Binding demonstration.  (1) real traces of CopyMapper / TopoSortMapper
+    on a diamond are accepted; each of these corruptions of ONE recorded
+    event/field must be rejected: a hit turned into a second invocation, a
+    dropped visit of a child, a hit returning another object, the result of an
+    unchanged node replaced by a fresh object, a collision removed.  (2) the
+    specification itself: weakening one guard of PtMapper must violate the
+    corresponding invariant."""
+    import copy
+    import warnings
+    warnings.simplefilter("ignore")
+    from ptverif import mapperharness as H
+    P = H.make_profiles()
+    ch, rep = [[], [1], [1, 2], [3, 2, 1]], [1, 2, 3, 4]
+    root, _, _ = H.build_t1(ch, rep, "il")
+    recs = {}
+    for pn in ("pytato.transform.CopyMapper", "pytato.transform.TopoSortMapper"):
+        r = H.run_direct(pn, P[pn], root, H.Interner(), "selftest")
+        recs[pn] = r["records"][0]
+    root2, _, _ = H.build_t1([[], [], [1, 2]], [1, 1, 3], "il")
+    rc = H.run_direct("pytato.transform.CopyMapper", P["pytato.transform.CopyMapper"], root2,
+                      H.Interner(), "selftest")["records"][0]
+    good = [recs["pytato.transform.CopyMapper"], recs["pytato.transform.TopoSortMapper"], rc]
+    for i, g in enumerate(good):
+        g["id"] = f"good{i}"
+    bad = []
+
+    def mut(base: dict, name: str, f: Any) -> None:
+        b = copy.deepcopy(base)
+        b["id"] = name
+        f(b)
+        bad.append(b)
+    cm, ts = good[0], good[1]
+    ihit = next(i for i, e in enumerate(cm["events"]) if e["ev"] == "hit")
+
+    def second_invocation(b: dict) -> None:
+        e = b["events"][ihit]
+        b["events"][ihit:ihit + 1] = [
+            {"ev": "enter", "n": e["n"], "x": 0, "res": 0},
+            {"ev": "return", "n": e["n"], "x": 0, "res": e["res"], "ret": e["res"],
+             "raw": e["res"], "rawcl": b["cls"][e["n"] - 1], "fresh": False, "lbl": True,
+             "och": []}]
+    mut(cm, "bad_second_invocation", second_invocation)
+    mut(ts, "bad_dropped_child", lambda b: b["events"].__delitem__(
+        next(i for i, e in enumerate(b["events"]) if e["ev"] == "hit")))
+    mut(cm, "bad_hit_other_object", lambda b: b["events"][ihit].__setitem__("res", 4))
+    iret = next(i for i, e in enumerate(cm["events"]) if e["ev"] == "return" and e["n"] == 2)
+
+    def fresh_result(b: dict) -> None:
+        e = b["events"][iret]
+        e.update(raw=99, res=99, ret=99, fresh=True, och=[1])
+    mut(cm, "bad_copy_of_unchanged_node", fresh_result)
+
+    def silent(b: dict) -> None:
+        e = b["events"][-1]
+        assert e["ev"] == "collision"
+        e.update(ev="hit", res=1)
+        b["outcome"] = "raise"
+    mut(rc, "bad_silent_hit_on_duplicate", silent)
+    val = tlc.validate_records("PtMapperTrace", "PtMapperTrace.cfg", good + bad, shards=1)
+    ok = all(val.verdicts[g["id"]] == "ok" for g in good) and \
+        all(val.verdicts[b["id"]] != "ok" for b in bad)
+    print("trace binding:", {k: v for k, v in val.verdicts.items()})
+    # (2) sabotage of the specification
+    src = open(os.path.join(tlc.SPEC_DIR, "PtMapper.tla")).read()
+    sab = [("OncePerKey", "  /\\ ~(V.cached /\\ KeyOf(n, x) \\in DOMAIN cache)", "  /\\ TRUE"),
+           ("CollisionReported", "  /\\ V.errcol => cexpr[KeyOf(n, x)] = n", "  /\\ TRUE"),
+           ("ResultsDeduplicated", "Stored(raw, rawcl) == IF InPool(rawcl) THEN pool[rawcl] ELSE raw",
+            "Stored(raw, rawcl) == raw")]
+    d = os.path.join(scratch(), "sab")
+    os.makedirs(d, exist_ok=True)
+    for inv, old, new in sab:
+        if old not in src:
+            print("selftest: sabotage pattern not found:", inv)
+            ok = False
+            continue
+        with open(os.path.join(d, "PtMapper.tla"), "w") as f:
+            f.write(src.replace(old, new))
+        res = tlc.run_tlc("PtMapper", write_cfg("sab", MaxN=3), workers=4, timeout=300,
+                          spec_dir=d)
+        print(f"spec sabotage [{inv}]: violated={res.violated}")
+        ok = ok and inv in res.violated
+    print("selftest", "passed" if ok else "FAILED")
+    return 0 if ok else 2
